@@ -78,6 +78,18 @@ func (b BadgerAccess) LookupDatasetIDs(datasetNames []string) []types.InternalDa
 	return scopeArray
 }
 
+// LockDataset takes the write lock of the dataset with the given internal id (if it exists)
+// and returns the function that releases it.
+func (b BadgerAccess) LockDataset(datasetID types.InternalDatasetID) func() {
+	ds, ok := b.dsm.store.datasetsByInternalID.Load(uint32(datasetID))
+	if !ok {
+		return func() {}
+	}
+	dataset := ds.(*Dataset)
+	dataset.WriteLock.Lock()
+	return dataset.WriteLock.Unlock
+}
+
 func (b BadgerAccess) GetDB() *badger.DB {
 	return b.b
 }
